@@ -99,9 +99,11 @@ def prewritePhys (c : PercCfg) (lc : Lsm.Cfg) (h : PwHdr) : Lsm.St → List Mut 
   | s, [] => (s, [])
   | s, m :: ms =>
     let r := prewriteMut c h (view lc s) m
+    -- a duplicate prewrite that leaves the transaction's own lock alone writes nothing
+    let kept := c.prewriteKeepsOwnLock && m.key ≠ [] && ownLock (view lc s m.key) h.start
     let s1 := match r.2 with
       | some _ => s
-      | none =>
+      | none => if kept then s else
         let ks := r.1 m.key
         let s' := match ks.defs.find? (fun d => d.ts = h.start) with
           | some d => putMem s (defEntry m.key h.start d.val)
